@@ -566,4 +566,4 @@ def run(ctx):
             'generators and pass handlers; sibling agreement of the label '
             'checks; CFG path conditions of the three block-matching '
             'outcomes in parse_string. Does not decide that reported lines '
-            'are the right ones.')
+            'are the right ones. Also: child_fields completeness (from interpreting the parse actions), admission of EXIT FOR/DO and whole-array arguments decided by interpreting the pass handlers on abstract nodes, definitions registered only after their validation.')
